@@ -335,7 +335,8 @@ func (d Dict) Map(f func(v Value) (Value, error)) (Set, error) {
 }
 
 func (d Dict) Where(p func(v Value) (bool, error)) (Set, error) {
-	var mb frozen.MapBuilder[Value, any]
+	// A key can have several values, so the matching entries go through NewDict, which keeps them all.
+	var matches []DictEntryTuple
 	for e := d.Enumerator(); e.MoveNext(); {
 		t := e.Current().(DictEntryTuple)
 		match, err := p(t)
@@ -343,14 +344,10 @@ func (d Dict) Where(p func(v Value) (bool, error)) (Set, error) {
 			return nil, err
 		}
 		if match {
-			mb.Put(t.at, t.value)
+			matches = append(matches, t)
 		}
 	}
-	m := mb.Finish()
-	if m.IsEmpty() {
-		return None, nil
-	}
-	return Dict{m: m}, nil
+	return NewDict(true, matches...)
 }
 
 func (d Dict) CallAll(_ context.Context, arg Value, b SetBuilder) error {
